@@ -92,3 +92,236 @@ Example C12_ex_details :
   = Some {| p_data := [("error_b1", JObj [("http_status_code", JNum "418"); ("http_body", JStr "tea")])];
             p_complete := false; p_status := 418 |}.
 Proof. vm_compute. reflexivity. Qed.
+
+(* ======================================================================================
+   Extension: mode selection from the RAW extra_config map; the property for an endpoint
+   built by the default factory (b0 :: rest backends, optional flatmap_filter / static
+   stages between the merger and the router) as seen through every router (gin with or
+   without return_error_msg and behind middleware that already recorded c.Error entries;
+   mux, chi, gorilla, httptreemux, negroni).  Every status is an arbitrary integer.
+   ====================================================================================== *)
+
+(* -- the three modes, selected by interacting configuration keys of the raw map -- *)
+Theorem C12_mode_selection_raw : forall extra,
+  status_mode_raw extra =
+  match lookup ns_http extra with
+  | Some (JObj m) => status_mode (cfgval_of (lookup key_details m)) (cfgval_of (lookup key_code m))
+  | _ => MDefault
+  end.
+Proof. exact status_mode_raw_digest. Qed.
+Print Assumptions C12_mode_selection_raw.
+
+Theorem C12_raw_error_code_iff : forall extra,
+  status_mode_raw extra = MErrorCode <->
+  exists m, lookup ns_http extra = Some (JObj m) /\ lookup key_details m = None /\
+            lookup key_code m = Some (JBool true).
+Proof. exact raw_error_code_iff. Qed.
+Print Assumptions C12_raw_error_code_iff.
+
+Theorem C12_raw_details_iff : forall extra n,
+  status_mode_raw extra = MDetails n <->
+  exists m, lookup ns_http extra = Some (JObj m) /\ lookup key_details m = Some (JStr n) /\ n <> "".
+Proof. exact raw_details_iff. Qed.
+Print Assumptions C12_raw_details_iff.
+
+Theorem C12_raw_default_iff : forall extra,
+  status_mode_raw extra = MDefault <->
+  ~ (exists m, lookup ns_http extra = Some (JObj m) /\ lookup key_details m = None /\
+               lookup key_code m = Some (JBool true)) /\
+  ~ (exists m n, lookup ns_http extra = Some (JObj m) /\ lookup key_details m = Some (JStr n) /\ n <> "").
+Proof. exact raw_default_iff. Qed.
+Print Assumptions C12_raw_default_iff.
+
+(* -- any status other than 200/201 (every integer): the backend counts as failed in every
+      mode - an error, or the error_<name> object flagged incomplete; its decoding is unused -- *)
+Theorem C12_other_status_fails : forall m r d,
+  ok_status (r_code r) = false ->
+  http_proxy_outcome m r d =
+  match m with
+  | MDefault => (None, EInvalidStatus)
+  | MErrorCode => (None, ECode (r_code r) (r_body r) (r_enc r))
+  | MDetails n =>
+      (Some {| p_data := [(("error_" ++ n)%string, error_object (r_code r) (r_body r) (r_enc r))];
+               p_complete := false; p_status := r_code r |}, ENone)
+  end.
+Proof. exact other_status_fails. Qed.
+Print Assumptions C12_other_status_fails.
+
+(* a 200/201 reply without a decodable body (a HEAD reply, an empty body) is a failed backend *)
+Theorem C12_undecodable_fails : forall m r,
+  ok_status (r_code r) = true -> http_proxy_outcome m r None = (None, EDecode).
+Proof. exact undecodable_fails. Qed.
+Print Assumptions C12_undecodable_fails.
+
+(* an empty error body: error_<name> holds the status code alone *)
+Theorem C12_empty_body_error_object : forall c,
+  error_object c "" "" = JObj [("http_status_code", JNum (z_lit c))].
+Proof. exact empty_body_error_object. Qed.
+Print Assumptions C12_empty_body_error_object.
+
+(* the text of the status code determines the code (every integer) *)
+Theorem C12_status_text_injective : forall a b, z_lit a = z_lit b -> a = b.
+Proof. exact z_lit_injective. Qed.
+Print Assumptions C12_status_text_injective.
+
+(* -- 200/201: decoded and used, every router, every mode (raw configuration) -- *)
+Theorem C12_endpoint_ok_used : forall rt prior epx x r dd,
+  ok_status (r_code r) = true -> static_cfg epx = None ->
+  client_endpoint rt prior epx (backend_of_raw (x, r, Some dd)) [] =
+  {| c_status := 200;
+     c_completed := if Nat.eqb (List.length dd) 0 then "false" else "true";
+     c_body := BJson (JObj dd) |}.
+Proof. exact ep_ok_used. Qed.
+Print Assumptions C12_endpoint_ok_used.
+
+Theorem C12_endpoint_ok_used_static : forall rt prior epx x r dd,
+  ok_status (r_code r) = true -> dd <> [] ->
+  let o := client_endpoint rt prior epx (backend_of_raw (x, r, Some dd)) [] in
+  c_status o = 200%Z /\ c_completed o = "true" /\
+  exists body, c_body o = BJson (JObj body) /\
+    forall k v, In (k, v) dd -> ~ In k (static_keys (static_cfg epx)) -> In (k, v) body.
+Proof. exact ep_ok_used_static. Qed.
+Print Assumptions C12_endpoint_ok_used_static.
+
+(* -- default mode: none of the failing backend's body reaches the client.  Whatever the
+      position of the backend, the stages and the router: the client observation does not
+      depend on the failing backend's status, body, content type (or decoding) -- *)
+Theorem C12_endpoint_default_independent : forall rt prior epx pre post x x' r r' d d',
+  status_mode_raw x = MDefault -> status_mode_raw x' = MDefault ->
+  ok_status (r_code r) = false -> ok_status (r_code r') = false ->
+  client_endpoint_l rt prior epx (map backend_of_raw (pre ++ (x, r, d) :: post)) =
+  client_endpoint_l rt prior epx (map backend_of_raw (pre ++ (x', r', d') :: post)).
+Proof. exact ep_default_independent. Qed.
+Print Assumptions C12_endpoint_default_independent.
+
+(* -- a sole backend yields 500 (no static data declared for failed requests) -- *)
+Theorem C12_endpoint_sole_500 : forall rt prior epx x r d,
+  status_mode_raw x = MDefault -> ok_status (r_code r) = false ->
+  static_on_failure (static_cfg epx) = false ->
+  client_endpoint rt prior epx (backend_of_raw (x, r, d)) [] =
+  {| c_status := 500; c_completed := "false";
+     c_body := match rt with
+               | RGin false => BRaw ""
+               | RGin true => BRaw "invalid status code"
+               | _ => BRaw ("invalid status code" ++ nl)
+               end |}.
+Proof. exact ep_sole_500. Qed.
+Print Assumptions C12_endpoint_sole_500.
+
+(* the hypothesis on static data is needed: a declared fallback replaces the 500 *)
+Theorem C12_static_fallback_refutes_500 :
+  exists epx x r,
+    status_mode_raw x = MDefault /\ ok_status (r_code r) = false /\
+    c_status (client_endpoint (RGin false) [] epx (backend_of_raw (x, r, None)) []) = 200%Z.
+Proof. exact static_fallback_refutes_500. Qed.
+Print Assumptions C12_static_fallback_refutes_500.
+
+(* -- with healthy siblings the client gets their data, flagged incomplete: any failed
+      backend bf (other status in any mode, or undecodable), any healthy one -- *)
+Theorem C12_endpoint_siblings_data : forall rt prior epx b0 rest m r dd bf,
+  In (m, r, Some dd) (b0 :: rest) -> ok_status (r_code r) = true -> dd <> [] ->
+  In bf (b0 :: rest) -> b_failed bf = true ->
+  let o := client_endpoint rt prior epx b0 rest in
+  c_status o = 200%Z /\ c_completed o = "false" /\
+  exists body, c_body o = BJson (JObj body) /\
+    forall k v, In (k, v) dd -> ~ In k (static_keys (static_cfg epx)) -> In (k, v) body.
+Proof. exact ep_siblings_data. Qed.
+Print Assumptions C12_endpoint_siblings_data.
+
+(* -- return_error_code, single backend: exactly the backend's status code -- *)
+Theorem C12_endpoint_error_code_exact : forall rt prior epx x r d,
+  status_mode_raw x = MErrorCode -> ok_status (r_code r) = false ->
+  static_on_failure (static_cfg epx) = false ->
+  c_status (client_endpoint rt prior epx (backend_of_raw (x, r, d)) []) = r_code r /\
+  c_completed (client_endpoint rt prior epx (backend_of_raw (x, r, d)) []) = "false".
+Proof. exact ep_error_code_exact. Qed.
+Print Assumptions C12_endpoint_error_code_exact.
+
+(* -- return_error_details=<name>: error_<name> holds the status code and the body, the
+      response is flagged incomplete (sole backend or among siblings) -- *)
+Theorem C12_endpoint_details : forall rt prior epx b0 rest n r d,
+  In (MDetails n, r, d) (b0 :: rest) -> ok_status (r_code r) = false ->
+  ~ In ("error_" ++ n)%string (static_keys (static_cfg epx)) ->
+  let o := client_endpoint rt prior epx b0 rest in
+  c_status o = 200%Z /\ c_completed o = "false" /\
+  exists body, c_body o = BJson (JObj body) /\
+    In (("error_" ++ n)%string, error_object (r_code r) (r_body r) (r_enc r)) body.
+Proof. exact ep_details. Qed.
+Print Assumptions C12_endpoint_details.
+
+(* -- routers -- *)
+Theorem C12_prior_errors_irrelevant : forall rt prior prior' epx b0 rest,
+  client_endpoint rt prior epx b0 rest = client_endpoint rt prior' epx b0 rest.
+Proof. exact prior_errors_irrelevant. Qed.
+Print Assumptions C12_prior_errors_irrelevant.
+
+Theorem C12_mux_family_agree : forall rt prior epx b0 rest,
+  mux_family rt = true ->
+  client_endpoint rt prior epx b0 rest = client_endpoint RMux prior epx b0 rest.
+Proof. exact mux_family_agree. Qed.
+Print Assumptions C12_mux_family_agree.
+
+Theorem C12_return_error_msg_same_status : forall prior epx b0 rest,
+  c_status (client_endpoint (RGin true) prior epx b0 rest) = c_status (client_endpoint (RGin false) prior epx b0 rest) /\
+  c_completed (client_endpoint (RGin true) prior epx b0 rest) = c_completed (client_endpoint (RGin false) prior epx b0 rest).
+Proof. exact return_error_msg_same_status. Qed.
+Print Assumptions C12_return_error_msg_same_status.
+
+(* the flatmap stage never meets (nil, nil): no nil response is dereferenced *)
+Theorem C12_endpoint_no_panic : forall epx b0 rest, endpoint_out epx b0 rest <> EPanic.
+Proof. exact endpoint_no_panic. Qed.
+Print Assumptions C12_endpoint_no_panic.
+
+(* -- the executable endpoint model satisfies the endpoint oracle (sole backend) -- *)
+Theorem C12_endpoint_meets_oracle : forall rt prior epx m r d,
+  static_cfg epx = None ->
+  match d with Some dd => wfj (JObj dd) = true | None => True end ->
+  is_infix (r_body r) ("invalid status code" ++ nl) = false ->
+  spec_endpoint_b rt epx (m, r, d) []
+    (client_endpoint rt prior epx (m, r, d) [])
+    (raw_of (client_endpoint rt prior epx (m, r, d) [])) = true.
+Proof. exact ep_single_meets_oracle. Qed.
+Print Assumptions C12_endpoint_meets_oracle.
+
+(* non-vacuity of the extension *)
+Definition ex_flatmap : obj :=
+  [(ns_proxy, JObj [("flatmap_filter", JArr [JObj [("type", JStr "del"); ("args", JArr [JStr "zz_absent"])]])])].
+Definition ex_code : obj := [(ns_http, JObj [(key_code, JBool true)])].
+Definition ex_both : obj := [(ns_http, JObj [(key_code, JBool true); (key_details, JStr "b1")])].
+
+Example C12_ex_raw_modes :
+  (status_mode_raw [], status_mode_raw ex_code, status_mode_raw ex_both,
+   status_mode_raw [(ns_http, JObj [(key_details, JNum "5"); (key_code, JBool true)])],
+   status_mode_raw [(ns_http, JStr "return_error_code")])
+  = (MDefault, MErrorCode, MDetails "b1", MDefault, MDefault).
+Proof. vm_compute. reflexivity. Qed.
+
+(* the first mutant's scenario: flatmap_filter declared, 503 next to a healthy sibling *)
+Example C12_ex_flatmap_partial_failure :
+  flatmap_active ex_flatmap = true /\
+  client_endpoint (RGin false) [] ex_flatmap
+    (backend_of_raw ([], {| r_code := 503; r_body := "secret-body"; r_enc := "application/json" |}, None))
+    [backend_of_raw ([], {| r_code := 200; r_body := "{...}"; r_enc := "application/json" |}, Some [("ok", JStr "yes")])]
+  = {| c_status := 200; c_completed := "false"; c_body := BJson (JObj [("ok", JStr "yes")]) |}.
+Proof. vm_compute. split; reflexivity. Qed.
+
+(* the second mutant's scenario: gin behind middleware that recorded an error, return_error_code *)
+Example C12_ex_prior_errors_error_code :
+  client_endpoint (RGin false) ["audit: request without a trace id"] []
+    (backend_of_raw (ex_code, {| r_code := 429; r_body := "slow down"; r_enc := "text/plain" |}, None)) []
+  = {| c_status := 429; c_completed := "false"; c_body := BRaw "" |}.
+Proof. vm_compute. reflexivity. Qed.
+
+Example C12_ex_static_success_keeps_500 :
+  static_on_failure (static_cfg [(ns_proxy, JObj [("static", JObj [("strategy", JStr "success"); ("data", JObj [("s", JNull)])])])]) = false.
+Proof. vm_compute. reflexivity. Qed.
+
+Example C12_ex_head_reply_details :
+  client_endpoint RChi [] []
+    (backend_of_raw (ex_both, {| r_code := 404; r_body := ""; r_enc := "" |}, None)) []
+  = {| c_status := 200; c_completed := "false";
+       c_body := BJson (JObj [("error_b1", JObj [("http_status_code", JNum "404")])]) |}.
+Proof. vm_compute. reflexivity. Qed.
+
+Example C12_ex_negative_status_text : (z_lit (-7), z_lit 0, z_lit 1234) = ("-7", "0", "1234").
+Proof. vm_compute. reflexivity. Qed.
